@@ -158,64 +158,97 @@ func checkC15(c *core.Ctx) {
 		}
 		c.Check("R1", cfgx.fn+" picks the enum value member by signedness", p.Pos(fd.Pos()), n > 0 && len(bad) == 0, strings.Join(bad, "; ")+" (no branch on the enum's Unsigned field selects between .UintValue and .Value)")
 	}
-	if fd := p.FuncDecl(pkg, "readEnumOptionValue"); fd != nil {
-		// if <bool parameter> { ParseUint; return 0, v, nil } else { ParseInt; return v, 0, nil }
-		params := map[types.Object]bool{}
-		for _, f := range fd.Type.Params.List {
-			for _, nm := range f.Names {
-				if o := info.ObjectOf(nm); o != nil {
-					if b, isB := o.Type().Underlying().(*types.Basic); isB && b.Kind() == types.Bool {
-						params[o] = true
-					}
-				}
+	if root := p.FuncDecl(pkg, "readEnumOptionValue"); root != nil {
+		// if <bool parameter> { ParseUint -> second result } else { ParseInt -> first
+		// result }, in readEnumOptionValue or in a helper it hands the flag to; the
+		// value reaches its slot through the return statement or through a named result
+		ok, found := false, false
+		for _, fd := range declClosure(p, pkg, root, 2) {
+			if found {
+				break
 			}
-		}
-		// which strconv parser a branch calls, and which result slot carries the value
-		branch := func(n ast.Node) (parsers map[string]bool, slots map[int]bool) {
-			parsers, slots = map[string]bool{}, map[int]bool{}
-			ast.Inspect(n, func(m ast.Node) bool {
-				switch x := m.(type) {
-				case *ast.CallExpr:
-					if cal := load.Callee(info, x); cal != nil && cal.Pkg() != nil && cal.Pkg().Path() == "strconv" {
-						parsers[cal.Name()] = true
-					}
-				case *ast.ReturnStmt:
-					if len(x.Results) == 3 && wire.Canon(x.Results[2]) == "nil" {
-						for i := 0; i < 2; i++ {
-							if tv := info.Types[x.Results[i]]; tv.Value == nil {
-								slots[i] = true
-							}
+			params := map[types.Object]bool{}
+			for _, f := range fd.Type.Params.List {
+				for _, nm := range f.Names {
+					if o := info.ObjectOf(nm); o != nil {
+						if b, isB := o.Type().Underlying().(*types.Basic); isB && b.Kind() == types.Bool {
+							params[o] = true
 						}
 					}
 				}
-				return true
+			}
+			named := map[types.Object]int{}
+			if fd.Type.Results != nil {
+				ri := 0
+				for _, f := range fd.Type.Results.List {
+					for _, nm := range f.Names {
+						named[info.Defs[nm]] = ri
+						ri++
+					}
+					if len(f.Names) == 0 {
+						ri++
+					}
+				}
+			}
+			// which strconv parser a branch calls, and which result slot carries the value
+			branch := func(n ast.Node) (parsers map[string]bool, slots map[int]bool) {
+				parsers, slots = map[string]bool{}, map[int]bool{}
+				ast.Inspect(n, func(m ast.Node) bool {
+					switch x := m.(type) {
+					case *ast.CallExpr:
+						if cal := load.Callee(info, x); cal != nil && cal.Pkg() != nil && cal.Pkg().Path() == "strconv" {
+							parsers[cal.Name()] = true
+						}
+					case *ast.ReturnStmt:
+						if len(x.Results) == 3 && wire.Canon(x.Results[2]) == "nil" {
+							for i := 0; i < 2; i++ {
+								if tv := info.Types[x.Results[i]]; tv.Value == nil {
+									slots[i] = true
+								}
+							}
+						}
+					case *ast.AssignStmt:
+						// <named result>, err = strconv.Parse…(…)
+						if len(x.Rhs) == 1 {
+							if call, isC := x.Rhs[0].(*ast.CallExpr); isC {
+								if cal := load.Callee(info, call); cal != nil && cal.Pkg() != nil && cal.Pkg().Path() == "strconv" && len(x.Lhs) >= 1 {
+									if id, isId := x.Lhs[0].(*ast.Ident); isId {
+										if ri, isNamed := named[info.ObjectOf(id)]; isNamed && ri < 2 {
+											slots[ri] = true
+										}
+									}
+								}
+							}
+						}
+					}
+					return true
+				})
+				return
+			}
+			ast.Inspect(fd.Body, func(m ast.Node) bool {
+				ifs, is := m.(*ast.IfStmt)
+				if !is || ifs.Else == nil || found {
+					return true
+				}
+				id, is := ast.Unparen(ifs.Cond).(*ast.Ident)
+				if !is || !params[info.ObjectOf(id)] {
+					return true
+				}
+				// the flag that selects between ParseUint and ParseInt
+				tp, ts := branch(ifs.Body)
+				ep, es := branch(ifs.Else)
+				if !tp["ParseUint"] && !tp["ParseInt"] {
+					return true
+				}
+				found = true
+				sites++
+				okT := tp["ParseUint"] && !tp["ParseInt"] && ts[1] && !ts[0]
+				okE := ep["ParseInt"] && !ep["ParseUint"] && es[0] && !es[1]
+				ok = okT && okE
+				return false
 			})
-			return
 		}
-		ok, found := false, false
-		ast.Inspect(fd.Body, func(m ast.Node) bool {
-			ifs, is := m.(*ast.IfStmt)
-			if !is || ifs.Else == nil {
-				return true
-			}
-			id, is := ast.Unparen(ifs.Cond).(*ast.Ident)
-			if !is || !params[info.ObjectOf(id)] {
-				return true
-			}
-			// the flag that selects between ParseUint and ParseInt
-			tp, ts := branch(ifs.Body)
-			ep, es := branch(ifs.Else)
-			if !tp["ParseUint"] && !tp["ParseInt"] {
-				return true
-			}
-			found = true
-			sites++
-			okT := tp["ParseUint"] && !tp["ParseInt"] && ts[1] && !ts[0]
-			okE := ep["ParseInt"] && !ep["ParseUint"] && es[0] && !es[1]
-			ok = okT && okE
-			return false
-		})
-		c.Check("R1", "readEnumOptionValue parses and returns the value in the member matching signedness", p.Pos(fd.Pos()), found && ok, "unsigned enums must go through ParseUint into the second result, signed ones through ParseInt into the first")
+		c.Check("R1", "readEnumOptionValue parses and returns the value in the member matching signedness", p.Pos(root.Pos()), found && ok, "unsigned enums must go through ParseUint into the second result, signed ones through ParseInt into the first")
 	} else {
 		c.Undecide("readEnumOptionValue not found")
 	}
